@@ -431,8 +431,17 @@ pub fn build_query_parts(p: &Program) -> (Vec<PTerm>, PGoal) {
         defs: Rc::new(p.defs.clone()),
         qvars: Rc::new(qvars.clone()),
     };
-    let query_var: PTerm = LTerm::var("__query__");
     let body: Vec<PGoal> = p.body.iter().map(|g| build::<PGoal>(g, &env, &cx)).collect();
+    let goal = wrap_query_goal(&qvars, body);
+    (qvars, goal)
+}
+
+/// The boilerplate `proto_vulcan_query!` puts around a query body: a fresh `__query__` unified
+/// with the list of query variables, the body, then reification.
+pub fn wrap_query_goal(qvars: &[PTerm], body: Vec<PGoal>) -> PGoal {
+    use proto_vulcan::relation as rel;
+    let qvars: Vec<PTerm> = qvars.to_vec();
+    let query_var: PTerm = LTerm::var("__query__");
     let parts: [PGoal; 3] = [
         GoalCast::cast_into(rel::eq::eq::<SimUser, Eng, PGoal>(
             query_var.clone(),
@@ -442,8 +451,7 @@ pub fn build_query_parts(p: &Program) -> (Vec<PTerm>, PGoal) {
         proto_vulcan::state::reify(query_var.clone()),
     ];
     let inner: PGoal = GoalCast::cast_into(InferredConj::<SimUser, Eng, PGoal>::from_array(&parts));
-    let goal: PGoal = GoalCast::cast_into(Fresh::<SimUser, Eng, PGoal>::new(vec![query_var], inner));
-    (qvars, goal)
+    GoalCast::cast_into(Fresh::<SimUser, Eng, PGoal>::new(vec![query_var], inner))
 }
 
 /// What `ResultIterator::next` does with a final state, for harness code that drives a `Solver`
